@@ -439,3 +439,31 @@ def k_spec(prop, name, rng, n, maxdepth, shard=100):
         src.append({"template": case["main"], "context": case["ctx"], "output": r["out"]})
     mism, err, nsh = coq_eval(prop, name, K_IMPORTS, "chk_spec", lits, shard=shard, pre=K_PRE)
     return mism, err, nsh, src, skipped
+
+
+TALSIX = ("define", "condition", "repeat", "content", "replace", "attributes", "omit-tag")
+
+
+def coq_cvalL(v):
+    ln = "None" if v[4] is None else "(Some %d%%nat)" % v[4]
+    return "(%s, (%s, (%s, (%s, %s))))" % (coq_s(v[0]), coq_bool(v[1]), coq_bool(v[2]), coq_bool(v[3]), ln)
+
+
+def k_spec_full(prop, name, rng, n, maxdepth, shard=60):
+    """all six TAL statements, no METAL: spec + data VM over the 'number of context operations' environment"""
+    cases = []
+    for i in range(n):
+        case, nodes, lib = make_case(rng, i, maxdepth, metal=False, lib_prob=0.0, want=["prog", "evals2"], only=TALSIX)
+        cases.append(case)
+    res = run_cases(cases)
+    lits, src, skipped = [], [], 0
+    for case, r in zip(cases, res):
+        if "compile_exc" in r or r.get("exc") or "evals2" not in r or len(r["evals2"]) >= 4000 or len(r["out"]) > 20000:
+            skipped += 1
+            continue
+        tbl = tlist(("((%d%%nat, (%s, %s)), %s)" % (ver, coq_s(e), coq_pairs(o), coq_cvalL(v)) for ver, e, o, v in r["evals2"]),
+                    "(nat * (str * list (str * str))) * cvalL")
+        lits.append("(%s, (%s, (%s, %d%%nat)))" % (coq_program(r["prog"]["main"]), tbl, coq_s(r["out"]), r["nops"]))
+        src.append({"template": case["main"], "context": case["ctx"], "output": r["out"], "context_operations": r["nops"]})
+    mism, err, nsh = coq_eval(prop, name, K_IMPORTS, "chk_spec_full", lits, shard=shard, pre=K_PRE)
+    return mism, err, nsh, src, skipped
